@@ -553,6 +553,9 @@ func (w *Walk) opHostile() *node.Leg {
 	u, r := w.U, w.R
 	fn := AllFuncs[r.Intn(len(AllFuncs))]
 	caller := u.Pick(u.Actors)
+	if (fn == FSetName && r.Chance(70)) || r.Chance(3) {
+		caller = u.DNS
+	}
 	rcv := caller
 	switch r.Intn(5) {
 	case 0:
@@ -614,6 +617,7 @@ func (w *Walk) opHostile() *node.Leg {
 	if r.Chance(5) {
 		c.CallValue = big.NewInt(1)
 	}
+	c.RetAfterErr = r.Chance(4)
 	return u.N.Exec(c)
 }
 
